@@ -263,6 +263,50 @@ int ops_misc(char **args, int na)
 		free(f); free(cf); unlink(path); unlink(cpath);
 		return 0;
 	}
+	if ((!strcmp(op, "tool.dump") || !strcmp(op, "tool.info")) && na >= 2) {
+		/* run the repository's mtbl_dump / mtbl_info (built from the working tree) on a blob.
+		 * tool.dump <blob> [x=1] [s=1] [k=<hex>] [v=<hex>] [K=<n>] [V=<n>]
+		 *   -> dump exit=<n> n=<lines> out=<hex of stdout> | out=#<fnv1a-64 of stdout> when stdout is larger than 3000 bytes
+		 * tool.info <blob> -> info exit=<n> size=.. ibo=.. ib=.. db=.. bs=.. dbc=.. ec=.. kb=.. vb=.. algo=<name> */
+		struct obj *b = getobj(args[1], K_BLOB); if (!b) return -1;
+		extern char vf_tooldir[];
+		char cmd[1600]; int isdump = !strcmp(op, "tool.dump");
+		int n = snprintf(cmd, sizeof cmd, "LC_ALL=C %s/%s", vf_tooldir, isdump ? "mtbl_dump" : "mtbl_info");
+		if (isdump) {
+			if (kvnum(args + 2, na - 2, "x", 0)) n += snprintf(cmd + n, sizeof cmd - n, " -x");
+			if (kvnum(args + 2, na - 2, "s", 0)) n += snprintf(cmd + n, sizeof cmd - n, " -s");
+			const char *k = kv(args + 2, na - 2, "k"); if (k) n += snprintf(cmd + n, sizeof cmd - n, " -k '%s'", k);
+			const char *v = kv(args + 2, na - 2, "v"); if (v) n += snprintf(cmd + n, sizeof cmd - n, " -v '%s'", v);
+			const char *K = kv(args + 2, na - 2, "K"); if (K) n += snprintf(cmd + n, sizeof cmd - n, " -K '%s'", K);
+			const char *V = kv(args + 2, na - 2, "V"); if (V) n += snprintf(cmd + n, sizeof cmd - n, " -V '%s'", V);
+		}
+		snprintf(cmd + n, sizeof cmd - n, " '%s' 2>/dev/null", b->path);
+		fflush(stdout);
+		FILE *p = popen(cmd, "r"); if (!p) return -1;
+		size_t cap = 1 << 16, got = 0; char *out = malloc(cap);
+		for (;;) { size_t k = fread(out + got, 1, cap - got, p); got += k; if (k == 0) break; if (got == cap) { cap *= 2; out = realloc(out, cap); } }
+		int st = pclose(p);
+		int ex = WIFEXITED(st) ? WEXITSTATUS(st) : 1000 + st;
+		if (isdump) {
+			long lines = 0; for (size_t i = 0; i < got; i++) if (out[i] == '\n') lines++;
+			printf("dump exit=%d n=%ld out=", ex, lines);
+			if (got <= 3000) puthex(stdout, (uint8_t *)out, got);
+			else { uint64_t h = 0xcbf29ce484222325ull; for (size_t i = 0; i < got; i++) { h ^= (uint8_t)out[i]; h *= 0x100000001b3ull; } printf("#%llu", (unsigned long long)h); }
+			putchar('\n');
+		} else {
+			/* pick the integer after each label */
+			static const char *lab[] = {"file size:", "index block offset:", "index bytes:", "data block bytes", "data block size:", "data block count", "entry count:", "key bytes:", "value bytes:"};
+			static const char *nm[] = {"size", "ibo", "ib", "db", "bs", "dbc", "ec", "kb", "vb"};
+			out = realloc(out, got + 1); out[got] = 0;
+			printf("info exit=%d", ex);
+			for (int i = 0; i < 9; i++) { char *q = strstr(out, lab[i]); if (q) { q += strlen(lab[i]); printf(" %s=%llu", nm[i], strtoull(q, NULL, 10)); } else printf(" %s=?", nm[i]); }
+			char *q = strstr(out, "compression algorithm:"); char algo[64] = "?";
+			if (q) sscanf(q + strlen("compression algorithm:"), " %63s", algo);
+			printf(" algo=%s\n", algo);
+		}
+		free(out);
+		return 0;
+	}
 	if (!strcmp(op, "tool.verify") && na == 2) {
 		/* run the repository's mtbl_verify (built from the working tree) on a blob */
 		struct obj *b = getobj(args[1], K_BLOB); if (!b) return -1;
